@@ -284,3 +284,19 @@ fn ascii_byte_in(s: &str, i: usize, set: &[u8]) -> (r: bool)
     requires all_ascii(s@),
     ensures r == (i < s@.len() && (exists|k: int| 0 <= k < set@.len() && set@[k] == s@[i as int] as u8)),
 { match s.as_bytes().get(i) { Some(b) => set.contains(b), None => false } }
+
+// ---- floats: classification (std / num_traits) and the external formatter zmij; all uninterpreted ----
+#[verifier::external_body] fn fl_is_nan(f: f64) -> (r: bool) ensures r == fl_nan(f), { f.is_nan() }
+#[verifier::external_body] fn fl_is_infinite(f: f64) -> (r: bool) ensures r == fl_inf(f), { f.is_infinite() }
+#[verifier::external_body] fn fl_is_sign_positive(f: f64) -> (r: bool) ensures r == fl_pos(f), { f.is_sign_positive() }
+#[verifier::external_body]
+pub struct ZmijBuffer { _p: () }
+impl ZmijBuffer {
+    #[verifier::external_body]
+    fn new() -> ZmijBuffer { unimplemented!() }
+    /// `zmij::Buffer::format_finite` (assumed: ASCII text, shorter than the address space)
+    #[verifier::external_body]
+    fn format_finite(&mut self, f: f64) -> (r: &str)
+        ensures r@ == zmij_text(f), all_ascii(r@), r@.len() < usize::MAX,
+    { unimplemented!() }
+}
